@@ -12,10 +12,10 @@ driver = "drv_convert"
 cxx = False
 fixed_lines = 0
 lean_modules = ["Driver.Convert"]
-rule = ("ops: 'c val|vval|consume src tgt value' = one conversion through mpt_data_converter(src) / mpt_value_convert / mpt_iterator_consume, performed with "
+rule = ("ops: 'c val|vval|consume|argv src tgt value' = one conversion through mpt_data_converter(src) / mpt_value_convert / mpt_iterator_consume / a variadic call (mpt_process_vararg, mpt_value_argv), performed with "
         "and without destination; 'c sweep src tgt lo hi' = the same for every integer of the range, summarised (verdict "
         "runs, inexact results, query-mode differences); 'c text fn tgt hex' = numeral text through mpt_convert_number / "
-        "mpt_convert_string / mpt_c[u]intN; 'c ftext' = the same for f/d/e targets. Stream 1 (exhaustive): every value of every "
+        "mpt_convert_string / mpt_c[u]intN; 'c ftext' = the same for f/d/e targets; 'c fpoint val|text' = mpt_fpoint_set (a consumer of mpt_iterator_consume with target 'f') from typed values / a numeral word. Stream 1 (exhaustive): every value of every "
         "8/16-bit source type (c b y n q) x all 12 targets, both modes. Stream 2: 32/64-bit and floating sources at every "
         "target limit +-2, powers of two +-1, float format limits; numerals = sign x prefix x magnitude at each limit +-1, "
         "2^64+-1, 30 digits, leading space, garbage suffix. Stream 3: random values/numerals. non-trivial = a script in which "
@@ -289,6 +289,33 @@ def scripts(tier, seed, scale=1):
             out += _chunks("num:%s:%s" % (fn, t), ["c text %s %s %s" % (fn, t, gen.hexs(x.encode("utf-8", "surrogateescape"))) for x in sel], 10)
     for t in FLTS:
         out += _ftext_scripts(t, thorough)
+    # values through a variadic call (mpt_process_vararg / mpt_value_argv) and through mpt_fpoint_set
+    for s in list(INTS) + list(FLTS):
+        pts = _int_boundary(s) if s in INTS else None
+        for t in ALL:
+            if s in INTS:
+                keep = set(_near([INTS[s][0], INTS[s][1], 0, 2 ** 31, -(2 ** 31), 2 ** 32, 2 ** 53, 2 ** 63] + list(INTS.get(t, (0, 0))), INTS[s][0], INTS[s][1], 1))
+                sel = [v for k, v in enumerate(pts) if v in keep or (thorough and k % 3 == 0)]
+                ops = ["c argv %s %s %d" % (s, t, v) for v in sel]
+            else:
+                fp = _float_points(s)
+                sel = fp if thorough else fp[::7]
+                ops = ["c argv %s %s %s" % (s, t, fhex(s, x)) for x in sel]
+            out += _chunks("argv:%s>%s" % (s, t), ops, 16)
+    ops = []
+    for s in list(FLTS) + ["x", "t", "i", "y"]:
+        if s in FLTS:
+            vals = [fhex(s, x) for x in _float_points(s) if thorough or abs(x) >= Fraction(2) ** 120 or abs(x) <= 4]
+            vals += [encode(s, "inf"), encode(s, "-inf")]
+        else:
+            vals = ["%d" % v for v in _near([INTS[s][0], INTS[s][1], 0, 2 ** 24, 2 ** 24 + 1], INTS[s][0], INTS[s][1], 1)]
+        for k, v in enumerate(vals):
+            ops.append("c fpoint val %s %s" % (s, v))
+            ops.append("c fpoint val %s %s %s" % (s, vals[(k * 7 + 3) % len(vals)], v))
+    out += _chunks("fpoint:val", ops, 20)
+    words = ["0.5", "-2", "3e38", "-3e38", "1e39", "-4e38", "1e38", "3.4028235e38", "3.4028236e38", "1e300", "-1e300", "inf", "-inf", "nan", "1e-50", "0x1p127",
+             "0x1p128", "abc", "x1", "16777217", "340282346638528859811704183484516925440", "340282356779733661637539395458142568448", "1e4000"]
+    out += _chunks("fpoint:text", [_fpoint_text_op(w) for w in words], 12)
     # ---- stream 3: random
     r = gen.rng(id, tier, seed, "random")
     nrand = (2000 if not thorough else 60000) * scale
@@ -296,7 +323,7 @@ def scripts(tier, seed, scale=1):
     for _ in range(nrand):
         s = r.choice(WIDE + WIDE + list(FLTS))
         t = r.choice(ALL)
-        op = r.choice(["val", "val", "vval", "consume"])
+        op = r.choice(["val", "val", "vval", "consume", "argv"])
         if s in INTS:
             lo, hi = INTS[s]
             k = r.choice([8, 16, 24, 32, 53, 64])
@@ -434,6 +461,12 @@ if hasattr(sys, "set_int_max_str_digits"):
     sys.set_int_max_str_digits(0)      # LDBL_MAX has 4933 decimal digits
 
 
+def _fpoint_text_op(word):
+    data = word.encode("latin-1")
+    alts = ftext_oracle("f", data)
+    return "c fpoint text %s %s" % (gen.hexs(data), ",".join("%d:%s" % a for a in alts) or "-")
+
+
 def _dec(x, frac=40):
     """exact decimal numeral of a non-negative Fraction whose expansion terminates within `frac` fractional digits
     (truncated there otherwise)"""
@@ -515,8 +548,8 @@ def nontrivial(script, c_lines):
             ok = ok or ":ok" in c
             ref = ref or ":refused" in c
         else:
-            ok = ok or ln.startswith("R dst=ok")
-            ref = ref or ln.startswith("R dst=refused")
+            ok = ok or ln.startswith("R dst=ok") or ln.startswith("R ok ")
+            ref = ref or ln.startswith("R dst=refused") or ln.startswith("R refused")
     return ok and ref
 
 
@@ -524,7 +557,7 @@ def oracle_check(op, ln):
     """independent re-computation (Python fractions) of what the real code printed for a conversion to a floating
     target: None = agrees / not applicable, else a message"""
     w = op.split()
-    if len(w) != 5 or w[1] not in ("val", "vval", "consume") or w[3] not in FLTS or not ln.startswith("R dst=ok out="):
+    if len(w) != 5 or w[1] not in ("val", "vval", "consume", "argv") or w[3] not in FLTS or not ln.startswith("R dst=ok out="):
         return None
     src, tgt, val = w[2], w[3], w[4]
     out = ln.split()[2][4:]
@@ -557,7 +590,7 @@ def tally(chk, script, c_lines):
         if msg:
             chk.stats["c_ne_s"] += 1
             chk.report("c_ne_s", [op], {"kind": "c_ne_s", "line": 0, "op": op, "detail": msg}, "oracle-%d" % len(chk.violations))
-        elif msg is None and ln.startswith("R dst=ok out=") and op.split()[3] in FLTS and op.split()[1] in ("val", "vval", "consume"):
+        elif msg is None and ln.startswith("R dst=ok out=") and op.split()[3] in FLTS and op.split()[1] in ("val", "vval", "consume", "argv"):
             d["oracle:agreed"] = d.get("oracle:agreed", 0) + 1
     for op, ln in zip(script, c_lines):
         w = op.split()
@@ -567,7 +600,7 @@ def tally(chk, script, c_lines):
                    "empty" if ln.startswith("R dst=empty") else "summary" if ln.startswith("R wrong=") else "other")
         k = "%s:%s" % (w[1], verdict)
         d[k] = d.get(k, 0) + 1
-        if w[1] in ("val", "vval", "consume", "sweep"):
+        if w[1] in ("val", "vval", "consume", "argv", "sweep"):
             k = "src:" + w[2]
             d[k] = d.get(k, 0) + 1
             k = "tgt:" + w[3]
